@@ -28,6 +28,26 @@ class Unit(object):
         self.ip = None
         self.n_paths = 0
         self.shape = None          # names assigned per loop (staleness of loop specifications, see cli.handle_failed)
+        self.norm = None           # ordered locals + hash of the position-normalised AST (pyvc/alpha.py)
+        self.renamed = None        # {old: new} when the contract text was renamed to follow renamed locals
+
+
+_FN_NORM = None
+
+
+def _fn_norm_ledger():
+    """per function: ordered locals and the hash of the position-normalised AST of the text the contract was proved for
+    (written by `./check --update-ledger` into contracts/ledger.json under "_fn_norm")"""
+    global _FN_NORM
+    if _FN_NORM is None:
+        import json
+        import os
+        p = os.path.join(os.path.dirname(os.path.dirname(os.path.abspath(__file__))), "contracts", "ledger.json")
+        try:
+            _FN_NORM = json.load(open(p)).get("_fn_norm", {})
+        except (IOError, OSError, ValueError):
+            _FN_NORM = {}
+    return _FN_NORM
 
 
 def loop_shape(fnnode):
@@ -171,6 +191,17 @@ def build_unit(contract, case, contracts, world):
     except (KeyError, IOError, OSError, SyntaxError) as e:
         u.error, u.error_kind = "function not found: %s" % e, "stale-contract"
         return u
+    # a pure renaming of locals since the contract was proved: the contract text follows it (pyvc/alpha.py)
+    try:
+        from .alpha import norm, rename_map, renamed_case
+        order, nsha = norm(fnnode)
+        u.norm = {"locals": order, "sha": nsha}
+        m = rename_map(_fn_norm_ledger().get("%s:%s" % (contract.file, contract.qual)), u.norm)
+        if m:
+            case = renamed_case(case, m, getattr(contracts, "spec_names", ()))
+            u.case, u.renamed = case, m
+    except RecursionError:
+        pass
     ip = Interp(reg, modctx, contracts, case, world)
     u.ip = ip
     ip.loop_ids = number_loops(fnnode)
@@ -346,6 +377,18 @@ def check_exceptional_exit(ip, case, entry, st, exc):
     if allowed is None:
         ip.emit("raises", "no %s escapes" % exc.cls, st, FALSE, {"exception": exc.cls})
         return
+    if getattr(case, "lemmas", None):
+        # Contract(lemmas=[...]) on exceptional exits as on normal ones (see check_normal_exit): instances of PROVED lemmas
+        lenv = dict(entry.env)
+        for k2 in ("$fs", "$elst"):
+            if k2 in st.env:
+                lenv[k2] = st.env[k2]
+        lenv["$locals"] = Fun("locals", env=dict(st.env))
+        for cl in case.lemmas:
+            head = cl.split("(")[0].strip()
+            if head not in getattr(ip.contracts, "lemma_functions", ()):
+                raise Unsupported("lemma clause `%s`: %s is not a registered lemma function" % (cl, head))
+            st.assume(eval_spec(ip, st, lenv, cl, old=entry))
     cond = case.raises[allowed]
     if cond != "?":
         c = eval_spec(ip, entry_view(entry, st), dict(entry.env), cond)
